@@ -319,7 +319,10 @@ class World:
         mask = self.n(s["mask"])
         mat = self.own(s["id"], "matrix", floats(s["matrix"], (int(np.sum(~np.asarray(mask))), int(s["columns"]))))
         FuncList = userobjs.classes()["FuncList"]
-        return FuncList(grid=aa.Grid2D.from_mask(mask=mask), matrix=mat, regularization=self._reg(s.get("reg")))
+        override = None
+        if s.get("override"):
+            override = self.own(s["id"], "override", floats(s["override"], mat.shape))
+        return FuncList(grid=aa.Grid2D.from_mask(mask=mask), matrix=mat, regularization=self._reg(s.get("reg")), override=override)
 
     def _b_settings(self, s):
         import autoarray as aa
